@@ -30,9 +30,9 @@ CHECKS = {
     },
     "C03": {
         "pkg": "c03", "level": "exploration",
-        "rule": "DagCase with retry limits 0..3 and 'fail the first k attempts' scripts with k below/at/above the limit, every maxActiveRuns, all three done-channel consumers, 10% scheduler-level dry runs; oracle = exact execution count per step (0 if not runnable, min(k,limit)+1 otherwise), no overlap of a step's own attempts, no execution after success, recorded retry count == extra attempts, dry run => zero create/enter events. Non-trivial: a retry really happened while >=2 attempts overlapped; dry cases with handlers and >=2 levels. Distinct: hash of (case, realised order).",
+        "rule": "DagCase with retry limits 0..3 and 'fail the first k attempts' scripts with k below/at/above the limit, every maxActiveRuns, all three done-channel consumers, 10% scheduler-level dry runs; oracle = exact execution count per step (0 if not runnable, min(k,limit)+1 otherwise), no overlap of a step's own attempts, no execution after success, recorded retry count == extra attempts, dry run => zero create/enter events; stage retryrun: the same counts in a run that retries a recorded vector (harness/retrysim, shared with C10): kept steps are executed 0 times, re-executed steps exactly min(k,limit)+1 times with a fresh retry budget. Non-trivial: a retry really happened while >=2 attempts overlapped; dry cases with handlers and >=2 levels. Distinct: hash of (case, realised order).",
         "assumptions": SIM_ASSUME,
-        "stages": [sim_stage(2500, 40000)],
+        "stages": [sim_stage(2500, 40000), sim_stage(600, 8000, name="retryrun", run="TestRetryRun", shrinktime="20s")],
     },
     "C04": {
         "pkg": "c04", "level": "exploration",
@@ -48,9 +48,10 @@ CHECKS = {
     },
     "C05": {
         "pkg": "c05", "level": "exploration",
-        "rule": "layer 1 (scheduler level, scripted executor): DagCase with a stop request injected at a generated trace position (before start; after the N-th event; inside creation of a chosen attempt's executor with the attempt gated until the stop returned = between executor creation and process start; at process start; at/after exit = during retry wait / between repeat iterations; at the first handler) x steps obeying or ignoring the signal (half of the ignoring ones end only on SIGKILL) x signalOnStop x repeating steps x harness-side SIGKILL escalation after 5/20 polling periods (mirrors the agent after maxCleanUpTime); 20% DAG-timeout cases with attempts the harness never releases. Oracle on the trace: no first start after the stop returned; every attempt open during the stop call gets the right signal; repeat steps not signalled and not repeated; still-open attempts get SIGKILL at escalation; run ends (bounded liveness, 5x confirm) canceled with onCancel then onExit once; after a timeout: not finished, no node left running, matching handler and onExit executed. Non-trivial: stop with >=1 open attempt, or in the create->start window, or repeat iteration open at stop, or force-kill delivered, or a timeout that fired. Distinct: hash(case, realised order).",
+        "rule": "layer 1 (scheduler level, scripted executor): DagCase with a stop request injected at a generated trace position (before start; after the N-th event; inside creation of a chosen attempt's executor with the attempt gated until the stop returned = between executor creation and process start; at process start; at/after exit = during retry wait / between repeat iterations; at the first handler) x steps obeying or ignoring the signal (half of the ignoring ones end only on SIGKILL) x signalOnStop x repeating steps x harness-side SIGKILL escalation after 5/20 polling periods (mirrors the agent after maxCleanUpTime); 20% DAG-timeout cases with attempts the harness never releases. Oracle on the trace: no first start after the stop returned; every attempt open during the stop call gets the right signal; repeat steps not signalled and not repeated; still-open attempts get SIGKILL at escalation; run ends (bounded liveness, 5x confirm) canceled with onCancel then onExit once; after a timeout: not finished, no node left running, matching handler and onExit executed. layer 2 (stage proc; scheduler level, REAL processes through the real command executor): 1..3 shell steps that obey the stop signal, ignore it (whole group), ignore it with a background child in the process group holding the output pipe, or die leaving such a child; signalOnStop overrides; output: capture pipes; the harness issues the stop once every root process runs and the SIGKILL escalation after the clean-up time (as Agent.signal does), or lets a DAG timeout fire; oracle: Schedule returns within clean-up + 4 s (x3 confirm), no recorded pid of the run (shell or child) is alive afterwards, a run with unfinished steps is not reported finished, an unstarted step is not reported finished, onExit (and onCancel after a stop) commands ran. Non-trivial: stop with >=1 open attempt, or a signal-ignoring / child-holding real process, or in the create->start window, or repeat iteration open at stop, or force-kill delivered, or a timeout that fired. Distinct: hash(case, realised order).",
         "assumptions": SIM_ASSUME,
-        "stages": [sim_stage(1500, 25000, shrinktime="20s")],
+        "stages": [sim_stage(1500, 25000, shrinktime="20s"),
+                   sim_stage(6, 120, name="proc", run="TestProc", shrinktime="30s")],
     },
     "C14": {
         "pkg": "c14", "level": "exploration", "exhaustive_claim": True,
